@@ -7,6 +7,9 @@ the in-memory stores and from a lazily opened file), read back by ReadInto and b
 the lazy SimpleColumnStore under every query pattern; the property verdict is
 decided on Go's own output (set read back == set written, deterministic bytes
 equal), the Coq model is compared on bytes, Add sequence, header and answers.
+A size stream (thousands of facts x every zstd / gzip writer level; constants printing
+to 4-60 KB before / between / after other predicates) is judged by the Go-side oracle
+alone (set read back == set written), without a Coq term.
 """
 import glob
 import itertools
@@ -357,7 +360,7 @@ def exhaustive_cases():
 # written set. No Coq term is made for them (the model reads long literals slowly); the expected COUNTS
 # are computed here from the keys, independently of the harness.
 ZLEVELS = ["fastest", "default", "better", "best"]
-LONG_LENS = [4090, 4096, 4097, 4100, 4500, 6000, 8191, 8192, 8193, 10000, 12288, 16384, 16500, 20000, 24576, 33000, 45000, 58000]
+LONG_LENS = [4097, 4098, 4200, 4500, 6000, 8191, 8192, 8193, 10000, 12288, 16384, 16500, 20000, 24576, 33000, 45000, 58000]
 LONG_KINDS = ["str", "bytes", "list", "slist"]
 
 
@@ -429,6 +432,8 @@ def gen_big_case(rng, idx, nmax, deep=False):
             rng.shuffle(cols)
         return {"sym": sym, "arity": ar, "n": n, "cols": cols}
     preds = [pred(rng.choice(["edge", "big_pred", "r"]), total, rng.choice([1, 2, 2, 2, 3] if deep else [1, 2, 2]))]
+    # more than one zstd block (128 KiB) of text whatever the other columns are: one padded name column, >= 29 bytes a line
+    preds[0]["cols"][rng.randrange(preds[0]["arity"])] = sz_col("name", 1, rng.randrange(1000), 0, rng.choice([28, 28, 40]), rng.choice(["node/number", "n", "a/b/item"]))
     preds.append(pred(rng.choice(["tag", "small", "z"]), rng.choice([1, 50, 300]), rng.choice([1, 1, 2])))        # behind the big block
     if rng.random() < 0.6:
         preds.insert(0, pred(rng.choice(["first", "a"]), rng.choice([0, 1, 20, 300]), rng.choice([1, 2])))
@@ -497,9 +502,9 @@ def sz_check_generated(case, out):
         raise RuntimeError("size stream: harness built %d facts (%d duplicates) for %s" % (out["facts"], out["dup_written"], case["preds"]))
     if max(out["max_print"] or [0]) >= 64000:
         raise RuntimeError("size stream: printed constant of %d bytes (N43 territory)" % max(out["max_print"]))
-    if case["shape"] == "size-longline" and max(out["max_print"]) < 4000:
+    if case["shape"] == "size-longline" and max(out["max_print"]) < 3500:
         raise RuntimeError("size stream: no long line generated (%s)" % out["max_print"])
-    if case["shape"] == "size-big" and out["plain_len"] < 40000:
+    if case["shape"] == "size-big" and out["plain_len"] < 140000:
         raise RuntimeError("size stream: big store of only %d bytes" % out["plain_len"])
 
 
@@ -819,7 +824,8 @@ def run(ck):
     cov = {"evaluations": len(cases), "distinct_nontrivial": distinct,
            "rule": "stores written by the real SimpleColumn.WriteTo and read back by ReadInto (recording store and "
                    "SimpleInMemoryStore) and by the lazy SimpleColumnStore (corpus %d, random %d, hash-tie stream %d, exhaustive block %d); "
-                   "non-trivial = at least two facts; distinct by (constants, predicates, rows)" % (ncorpus, nrandom, len(tcases), len(cases) - ncorpus - nrandom - len(tcases)),
+                   "non-trivial = at least two facts; distinct by (constants, predicates, rows); the size stream (size_stream.cases more stores, "
+                   "Go-side oracle) is counted separately" % (ncorpus, nrandom, len(tcases), len(cases) - ncorpus - nrandom - len(tcases)),
            "exhaustive": exhaustive,
            "exhaustive_scope": "every store over p/0 {unlisted, empty, present} x q/1 (ordered subsets of 2 constants) x r/2 "
                                "(sequences of <=2 of 3 rows) x every listing order x deterministic or not x every query pattern "
@@ -836,7 +842,9 @@ def run(ck):
         "(N18 leading minus, F5 CR, F6 integral floats, N14 sub-second times, N9 duplicate keys) unless the tree under test has them repaired",
         "gzip / zstd are identity laws in the theorems; the harness checks decompress(compress(file)) == file on every case",
         "main stream: lexer-valid names, printed constants shorter than 64 KiB, no two hash-equal atoms under one predicate (F8); "
-        "the hash-tie stream holds such atoms on purpose and uses only sources and targets that compare atoms (slice-backed store, MultiIndexedArrayInMemoryStore, the lazy store)"])
+        "the hash-tie stream holds such atoms on purpose and uses only sources and targets that compare atoms (slice-backed store, MultiIndexedArrayInMemoryStore, the lazy store)",
+        "size stream: decided by the Go-side oracle only (harness/c19/size.go compares the atoms read back with the written ones by Constant.Equals; "
+        "the check recomputes every expected count from the generating keys); no Coq term, hence no model comparison on these stores"])
 
 
 def replay(ck, path):
@@ -884,10 +892,18 @@ META = {
             "on bytes, Add sequence, header and query answers. A second stream holds stores with hash-equal distinct facts under one predicate "
             "(same payload under another type, 0 = [] = {}, [1] = 65792, twins inside pairs / lists / maps): deterministic writes from a slice-backed "
             "source in three orders and from MultiIndexedArrayInMemoryStore filled in two orders must be byte-equal and equal to the model's bytes; "
-            "the judge first decides that the (Hash, String) key pair is injective on the case (the theorem's hypothesis) and that a tie is present.",
+            "the judge first decides that the (Hash, String) key pair is injective on the case (the theorem's hypothesis) and that a tie is present. "
+            "A third stream (size; Go-side oracle only, NOT model-judged: the set read back must equal the set written, expected counts recomputed from the "
+            "generating parameters) holds stores too large / lines too long for the model's literal reader: 5,000-30,000 facts written plain, gzip "
+            "(default / speed / best / huffman) and zstd at every encoder level (fastest / default / better / best and the library default; WriteTo streaming "
+            "into the compressor, and the plain bytes compressed in one Write, in 4000-byte Writes, by EncodeAll), each opened with the matching lazy "
+            "constructor and queried (all-variable and constant-bound) on every predicate, with ReadInto beside it; and stores in which a predicate holds "
+            "string / bytes / list constants printing to 4-60 KB listed before, between and after other predicates, every predicate queried lazily.",
     "note": "Trusted: Coq kernel + vm_compute; printer/parser of constants are parameters (C08/C09), instantiated per case "
             "from String() values observed in Go; gzip/zstd as identity laws (sampled on every case); the model is tied to the "
             "code by sampling (exhaustive on a small space in the thorough tier). Known-finding probes: N18, F8, names the "
-            "lexer rejects, 64 KiB line limit. Hash-keyed in-memory stores conflate hash-equal atoms (F8): they are neither source nor target "
+            "lexer rejects, 64 KiB line limit. The size stream has no model counterpart (verdict by the property's oracle on Go's outputs; quick tier: "
+            "the big predicate is read in full from the plain, the gzip and one zstd level's output per store - the level rotates - while every other "
+            "writer's output is opened lazily and queried on the predicates around the big block; thorough tier: in full from every writer's output). Hash-keyed in-memory stores conflate hash-equal atoms (F8): they are neither source nor target "
             "in the hash-tie stream.",
 }
